@@ -223,7 +223,7 @@ def run(run, tier, seed, replay_case=None):
     hook = hook and "hook=1" in caps
 
     rng = random.Random(seed * 7919 + 30)
-    nx, nz = (400, 14) if tier == "quick" else (6000, 160)
+    nx, nz = (400, 14) if tier == "quick" else (4000, 60)
     n_env = os.environ.get("VERIF_N")
     if n_env:
         nx = int(n_env)
